@@ -414,6 +414,14 @@ def setitem(it: Interp, base, idx, v):
         base.elems[norm_index(it, idx, len(base.elems))] = v
         return
     if isinstance(base, NdArr):
+        eps = getattr(base, "rel_eps", None)
+        if eps and isinstance(v, (SV, int, Fraction)) and not isinstance(v, bool):
+            t = term_of(v)
+            t = z3.ToReal(t) if L.is_int(t) else t
+            r = L.fresh("rounded", L.RealS)
+            at = z3.If(t >= 0, t, -t)
+            it.assume(z3.And(r - t <= L.to_z3(eps) * at, t - r <= L.to_z3(eps) * at))
+            v = SV(r)
         base.set(norm_index(it, idx, base.n), v)
         return
     if isinstance(base, PDict):
@@ -497,7 +505,10 @@ def getslice(it: Interp, base, lo, hi):
     if isinstance(base, NdArr):
         a, b = _clamp(it, lo, base.n, 0), _clamp(it, hi, base.n, base.n)
         it.trust("numpy: basic slicing returns a view on the same buffer")
-        return NdArr(base.buf, base.off + a, max(0, b - a))
+        w = NdArr(base.buf, base.off + a, max(0, b - a))
+        if getattr(base, "rel_eps", None):
+            w.rel_eps = base.rel_eps
+        return w
     if isinstance(base, SSeq):
         n = base.hi - base.lo
 
@@ -1376,19 +1387,42 @@ def np_zeros(it, args, kw):
             raise Unsupported("np.zeros with a symbolic length")
         raise RaiseSig(ExcV("TypeError", ("zeros",)))
     it.trust("numpy.zeros(n): fresh array of n zeros")
-    return NdArr([0] * n)
+    a = NdArr([0] * n)
+    dt = kw.get("dtype", args[1] if len(args) > 1 else None)
+    if dt is not None:
+        eps = getattr(dt, "rel_eps", None)
+        if eps is None and not (isinstance(dt, TypeTag) and dt.name in ("float", "float64")):
+            raise Unsupported("numpy.zeros with a dtype the engine does not model")
+        if eps:
+            # a narrower float type: every value stored into the array is rounded, with a relative error up to eps (A1 does not cover it)
+            it.trust(f"numpy {dt.name}: a stored value is rounded with relative error <= {eps}")
+            a.rel_eps = eps
+            it.approximate = True          # the engine's result on this path is an over-approximation (any rounding within the bound), not a prediction
+    return a
+
+
+def _narrow_float(name, eps):
+    t = TypeTag(name, lambda it, v: False)
+    t.rel_eps = eps
+    return t
 
 
 def np_array(it, args, kw):
     it.trust("numpy.array(x): fresh array with the elements of x (a copy)")
-    return NdArr(_as_numlist(it, args[0]))
+    r = NdArr(_as_numlist(it, args[0]))
+    if getattr(args[0], "rel_eps", None):
+        r.rel_eps = args[0].rel_eps
+    return r
 
 
 def np_append(it, args, kw):
     it.trust("numpy.append(a, b): fresh array, a followed by b")
     a = _as_numlist(it, args[0])
     b = _as_numlist(it, args[1]) if isinstance(args[1], (NdArr, PList, tuple)) else [args[1]]
-    return NdArr(a + b)
+    r = NdArr(a + b)
+    if getattr(args[0], "rel_eps", None):
+        r.rel_eps = args[0].rel_eps
+    return r
 
 
 def np_floor(it, args, kw):
@@ -1464,7 +1498,8 @@ def modelled_module(it: Interp, name):
         m = ModuleV("numpy")
         m.attrs.update({"zeros": Builtin("np.zeros", np_zeros), "array": Builtin("np.array", np_array), "append": Builtin("np.append", np_append),
                         "isclose": Builtin("np.isclose", np_isclose), "floor": Builtin("np.floor", np_floor), "ceil": Builtin("np.ceil", np_ceil), "inf": INF,
-                        "ndarray": TypeTag("ndarray", lambda it, v: isinstance(v, NdArr)), "int64": BUILTINS["int"],
+                        "ndarray": TypeTag("ndarray", lambda it, v: isinstance(v, NdArr)), "int64": BUILTINS["int"], "float64": BUILTINS["float"],
+                        "float32": _narrow_float("float32", Fraction(1, 2 ** 24)), "float16": _narrow_float("float16", Fraction(1, 2 ** 11)),
                         "sort": Builtin("np.sort", lambda it, a, k: NdArr(sym_sorted(it, _as_numlist(it, a[0]), lambda x: x, False)))})
         return m
     if name == "math":
